@@ -448,6 +448,19 @@ vh_poison(const void *p, size_t n)
 #endif
 }
 
+/* memory that is accessible but whose content nobody has written yet: MemorySanitizer is told so, the other
+ * builds leave it as it is */
+void
+vh_mark_uninit(const void *p, size_t n)
+{
+#ifdef VH_MSAN
+    __msan_poison(p, n);
+#else
+    (void)p;
+    (void)n;
+#endif
+}
+
 void
 vh_unpoison(const void *p, size_t n)
 {
